@@ -11,7 +11,7 @@ PROP = {
             "undefined-global diagnostics from EmmyLuaAnalysis::diagnose_file; distinct = FNV of the document (held or refuted); "
             "non-trivial = >= 8 token ranges and >= 1 diagnostic range checked",
     "min_nontrivial": {"quick": 4000, "thorough": 150000},
-    "max_secs": {"quick": 60, "thorough": 900},
+    "max_secs": {"quick": 600, "thorough": 1500},
     "require_clauses": ["token-ranges", "diagnostic-ranges"],
     "assumptions": COMMON_ASSUME + [
         "no position encoding is negotiated in-process, so the protocol default applies: UTF-16 code units, lines end at LF, CRLF or CR",
